@@ -432,6 +432,17 @@ class ModelHarness:
         key = Xb if Xb is not None else self.last_infer_X
         if key is not None and id(key) in self.epoch_batches and self.epoch_batches[id(key)][0] is key:
             return self.epoch_batches[id(key)]
+        if key is not None and self.cur_full is not None and getattr(key, "ndim", 0) == 2 and np.ndim(self.cur_full) == 2 \
+                and key.shape[1:] == np.shape(self.cur_full)[1:] and not (self.cur_batch is not None and key is self.cur_batch[0]):
+            # a batch that never came out of the (spied) _batchify: say who is in it by value
+            if key is self.cur_full or (key.shape == np.shape(self.cur_full) and np.array_equal(key, self.cur_full)):
+                ids = list(range(len(key)))
+            else:
+                ids = self.identify(self.cur_full, key)
+            aff = None
+            if self.cur_affinity_full is not None and not any(i < 0 for i in ids):
+                aff = np.asarray(self.cur_affinity_full)[np.ix_(ids, ids)]
+            return (key, aff, ids)
         return (self.cur_batch[0], self.cur_batch[1], self.cur_ids)
 
     @staticmethod
